@@ -710,6 +710,7 @@ pub struct ScenarioResult {
     pub distinct_logs: usize,
     pub sequential_outcomes: usize,
     pub bound_completed: Option<usize>,
+    pub target_bound: usize,
     pub violations: Vec<(String, String, Value)>,
     pub sample: Option<Value>,
     pub capped: bool,
@@ -741,6 +742,7 @@ pub fn explore(scn: &Scenario, max_bound: usize, max_execs: u64, deadline: &mc_k
         distinct_logs: 0,
         sequential_outcomes: 0,
         bound_completed: None,
+        target_bound: max_bound,
         violations: vec![],
         sample: None,
         capped: false,
